@@ -39,7 +39,7 @@ P.hook_eq = hook_eq
 P.token_in_str = True          # `token in "0123456789"`: a Token is a str subclass, the test is the substring test on its characters (field text)
 
 
-@P.spec
+@P.spec(heap=True)
 def TEQ(x: 'Any', y: 'Any') -> 'bool':
     """Token equality (in specifications == on nodes is identity)"""
     return x is y or (x.catcode == y.catcode and x.text == y.text)
